@@ -9,7 +9,7 @@ for d in seeded/*/; do
   prop=$(python3 -c "import json;print(json.load(open('$d/meta.json'))['property'])")
   extra=$(python3 -c "import json;print(json.load(open('$d/meta.json')).get('check',''))")
   chk=${extra:-$prop}
-  out=$(./tools/try_patch.sh "$d/patch.diff" "$secs" $chk 2>&1 | head -1)
+  out=$(./tools/try_patch.sh "$d/patch.diff" "$secs" $chk 2>&1 | grep -a -m1 '^\[C[0-9][0-9]\] exit=')
   tot=$((tot+1))
   case "$out" in *"exit=1"*) echo "DETECTED $name :: ${out:0:120}";; *) echo "MISSED   $name :: ${out:0:160}"; miss=$((miss+1));; esac
 done
